@@ -84,7 +84,7 @@ def ensure_protocols():
         _protocols_loaded = True
 
 
-def matchers_from_command_line(filt, stop, color=False):
+def matchers_from_command_line(filt, stop, color=False, mode_words=('-l', '/nonexistent/verif.log')):
     """-> (filter matcher, breakpoint matcher) as parse_args() produces them for `-f filt -b stop`; an argument that is
     not text is passed through unchanged."""
     import contextlib
@@ -96,7 +96,7 @@ def matchers_from_command_line(filt, stop, color=False):
         words += ['-f', filt]
     if isinstance(stop, str):
         words += ['-b', stop]
-    words += ['-l', '/nonexistent/verif.log']
+    words += list(mode_words)      # inside GDB the instance gets only the words left of -g: no mode option
     with contextlib.redirect_stdout(io.StringIO()), contextlib.redirect_stderr(io.StringIO()):
         args = parse_args(words)
     util.set_color_output(bool(color))
